@@ -134,6 +134,15 @@ theorem C05_t_commutes (q : QB) (hq : q.PerTensor) (d0 d1 : Nat) (hsz : q.size =
     rw [hsz]
     simp only [he, hq.axis]
 
+/-- `aten.t` on a tensor with fewer than two dimensions is the tensor itself, as for a
+torch.Tensor (as repaired: the original implementation raised ValueError there). -/
+theorem C05_t_below_two_dims (q : QB) (h : q.size.length < 2) : qbT q = .qb q := by
+  unfold qbT
+  match hsz : q.size, h with
+  | [], _ => rfl
+  | [_], _ => rfl
+  | _ :: _ :: _, h => exact absurd h (by simp)
+
 /-- `detach` / `clone` keep the value. -/
 theorem C05_detach_id (q : QB) : qbDetach q = .qb q ∧ qbClone q = .qb q := ⟨rfl, rfl⟩
 
